@@ -27,7 +27,8 @@ Definition parse_supported (sup : str) : amap (list str) :=
 Definition s_PLAIN := Eval vm_compute in bs "PLAIN".
 Definition s_EXTERNAL := Eval vm_compute in bs "EXTERNAL".
 
-(* bits: S sasl PLAIN, X sasl EXTERNAL, D DisableSTS, L SSL, F DisableSTSFallback, T no tracking *)
+(* bits: S sasl PLAIN, X sasl EXTERNAL, D DisableSTS, L SSL, F DisableSTSFallback, T no tracking,
+   U the connection is over TLS (TLSConnectionState() != nil) whatever Config.SSL says *)
 Definition cfg_of_bits (bits sup : str) : cap_cfg :=
   let sasl := fold_left (fun acc b => if N.eqb b 83 then Some s_PLAIN
                                       else if N.eqb b 88 then Some s_EXTERNAL else acc) bits None in
@@ -90,7 +91,7 @@ Definition render_probes (cfg : cap_cfg) (st : cap_state) (probes : list str) : 
 
 Definition render_reg (cfg : cap_cfg) : str := hexlist (List.map render_line (registration_writes cfg)).
 
-Fixpoint run_rounds (cfg : cap_cfg) (probes : list str) (k : nat) (st : cap_state) (evs : list str) : str :=
+Fixpoint run_rounds (cfg : cap_cfg) (tls : bool) (probes : list str) (k : nat) (st : cap_state) (evs : list str) : str :=
   match evs with
   | [] => []
   | ev :: r =>
@@ -102,10 +103,10 @@ Fixpoint run_rounds (cfg : cap_cfg) (probes : list str) (k : nat) (st : cap_stat
         bs ";t=" ++ hexlist (sort_strs (akeys (st_tmp st'))) ++
         bs ";e=" ++ hexlist (sort_strs (akeys (st_enabled st'))) ++
         bs ";h=" ++ render_probes cfg st' probes ++
-        run_rounds cfg probes (S k) st' r
+        run_rounds cfg tls probes (S k) st' r
       else
       let params := split_byte 10 ev in
-      let res := if c_tracking cfg then handle_cap sort_strs cfg false now0 st params else (st, []) in
+      let res := if c_tracking cfg then handle_cap sort_strs cfg tls now0 st params else (st, []) in
       let st' := fst res in
       let outs := snd res in
       bs "|r" ++ show_nat k ++ [58] ++ render_outs outs ++
@@ -114,7 +115,7 @@ Fixpoint run_rounds (cfg : cap_cfg) (probes : list str) (k : nat) (st : cap_stat
             bs ";e=" ++ hexlist (sort_strs (akeys (st_enabled st'))) ++
             bs ";g=" ++ show_bool (tag_section_present (send_loop_tags (st_enabled st') (tags_for k))) ++
             bs ";h=" ++ render_probes cfg st' probes ++
-            run_rounds cfg probes (S k) st' r)
+            run_rounds cfg tls probes (S k) st' r)
   end.
 
 Definition run_session (args : list str) : str :=
@@ -122,15 +123,42 @@ Definition run_session (args : list str) : str :=
   let probes := match nth_arg8 2 args with [] => [] | p => split_byte 32 p end in
   bs "reg=" ++ render_reg cfg ++
   bs "|poss=" ++ hexlist (sort_strs (akeys (possible_caps cfg false))) ++
-  run_rounds cfg probes 0 (cap_init sts_init) (skipn 3 args) ++
+  (* bit U: the connection is TLS although Config.SSL is false (reached by an STS upgrade) *)
+  run_rounds cfg (memb 85 (nth_arg8 0 args)) probes 0 (cap_init sts_init) (skipn 3 args) ++
   (* after Close: HasCapability on a client that is not connected *)
   bs "|x=" ++ concat (List.map (fun p => if c_tracking cfg
                                          then show_bool (has_capability false [] p)
                                          else [33]) probes).
+
+(* ---- cap.tagsrace: A's gate is decided by the CAP lines handled before it was sent, the
+   gate of the events queued behind the blocked write by all of them ------------------- *)
+Definition race_tags (kind : N) : option (amap str) :=
+  if N.eqb kind 116 then Some [([107], [118])]          (* t *)
+  else if N.eqb kind 101 then Some []                    (* e *)
+  else None.
+
+Definition run_tagsrace (args : list str) : str :=
+  match parse_nat (nth_arg8 1 args) with
+  | None => bs "?bad-count"
+  | Some n =>
+      let npre := N.to_nat n in
+      let evs := skipn 2 args in
+      if Nat.ltb (length evs) npre || Nat.ltb 12 (length evs) || Nat.ltb 8 (length (nth_arg8 0 args))
+      then bs "?bad-count" else
+      let cfg := cfg_of_bits [] [] in
+      let feed := fun st ev => fst (handle_cap sort_strs cfg false now0 st (split_byte 10 ev)) in
+      let st1 := fold_left feed (firstn npre evs) (cap_init sts_init) in
+      let st2 := fold_left feed (skipn npre evs) st1 in
+      bs "a=" ++ show_bool (tag_section_present (send_loop_tags (st_enabled st1) (race_tags 116))) ++
+      bs "|b=" ++ concat (List.map (fun kd => show_bool (tag_section_present
+                                              (send_loop_tags (st_enabled st2) (race_tags kd))))
+                                   (nth_arg8 0 args))
+  end.
 
 Definition run_C08 (suite : str) (args : list str) : option str :=
   if streqb suite (bs "cap.parse") then Some (render_capmap (parse_cap (nth_arg8 0 args)))
   else if streqb suite (bs "cap.session") then Some (run_session args)
   else if streqb suite (bs "cap.ackremoval") then Some (run_session args)
   else if streqb suite (bs "cap.enum") then Some (run_session args)
+  else if streqb suite (bs "cap.tagsrace") then Some (run_tagsrace args)
   else None.
